@@ -26,11 +26,11 @@ __CPROVER_requires(node == NULL || (((node->hash != NULL) != (node->metaData != 
 __CPROVER_requires((g_occ.hash != NULL) != (g_occ.metaData != NULL) && g_occ.level <= 0xff)
 __CPROVER_requires(builder == NULL || (builder->ctx != NULL && builder->hsr != NULL))
 __CPROVER_requires(builder == NULL || __CPROVER_forall { int i; (0 <= i && i < KSI_TREE_BUILDER_STACK_LEN) ==> (i < at || TB_SLOT_OK(builder, i)) })
-__CPROVER_requires(g_w1 < g_w2 && g_w2 < KSI_TREE_BUILDER_STACK_LEN && g_live >= 0 && g_live < 100000)
+__CPROVER_requires(g_w1 < g_w2 && g_w2 < KSI_TREE_BUILDER_STACK_LEN && g_live >= 0 && g_live < 100000 + at)
 /* (0) live-allocation accounting (C19): a refused insertion keeps nothing it allocated; an accepted one keeps the
- *     nodes made by the joins of the carry (none when the first slot was empty) */
+ *     nodes made by the joins of the carry: at most one per slot from `at` upwards, none when the first slot was empty */
 __CPROVER_ensures(IMPLIES(__CPROVER_return_value != KSI_OK, g_live == __CPROVER_old(g_live)))
-__CPROVER_ensures(IMPLIES(__CPROVER_return_value == KSI_OK, g_live >= __CPROVER_old(g_live) && g_live - __CPROVER_old(g_live) <= 256 &&
+__CPROVER_ensures(IMPLIES(__CPROVER_return_value == KSI_OK, g_live >= __CPROVER_old(g_live) && g_live - __CPROVER_old(g_live) <= 256 - at &&
 		IMPLIES(__CPROVER_old(builder->stack[at]) == NULL, g_live == __CPROVER_old(g_live))))
 /* (1) accepted => arguments fine; refused => there is a reason */
 __CPROVER_ensures(IMPLIES(__CPROVER_return_value == KSI_OK, INS_ARGS_OK && node->level <= 0xff))
